@@ -248,3 +248,11 @@ Proof. vm_compute. reflexivity. Qed.
 Example real_width_example :
   fst (allocate {| cur := MAX_STREAM_ID; active := [1]; maxid := MAX_STREAM_ID |}) = Some 3.
 Proof. vm_compute. reflexivity. Qed.
+
+Theorem allocs_history :
+  forall m first ops, 1 <= m -> first = 1 \/ first = 2 ->
+    Forall (fun '(id, act) => id <> 0 /\ id < 2 ^ m /\ id mod 2 = first mod 2 /\ mem id act = false)
+           (allocs (sc_init first (N.ones m)) ops).
+Proof.
+  intros m first ops Hm Hf. apply history_ids; [exact Hm|apply init_inv; [reflexivity|assumption]].
+Qed.
